@@ -672,6 +672,16 @@ impl<T: Config> P2PSession<T> {
                 .expect("Missing local input while calling advance_frame().");
             let actual_frame = self.sync_layer.add_local_input(handle, player_input);
             if actual_frame != NULL_FRAME {
+                // The frames before a player's first input are blank in its input queue (input
+                // delay). Queue them for the remotes as well, so that the outgoing stream of
+                // every local player starts at frame 0 even when their delays differ; otherwise
+                // the first frame that is complete for all local players would silently skip
+                // the earlier inputs of the players with the smaller delay.
+                if self.local_connect_status[handle].last_frame == NULL_FRAME {
+                    for frame in 0..actual_frame {
+                        self.queue_outgoing_local_input(handle, PlayerInput::blank_input(frame));
+                    }
+                }
                 let queued_input = PlayerInput::new(actual_frame, player_input.input);
                 self.local_connect_status[handle].last_frame = queued_input.frame;
                 self.queue_outgoing_local_input(handle, queued_input);
